@@ -425,9 +425,9 @@ Step ==
                                THEN {V("C07", l, "writing a value panicked instead of returning an error: " \o e.site)}
                           ELSE IF o.op = "drop" THEN {}
                           ELSE {V("C03", l, "writer call " \o o.op \o " panicked: " \o e.site)})
-                         \* refusals are InvalidData/Other; any other error of a writer call comes from the
-                         \* connection, which may only fail when the transport did
-                         \cup (IF e.res = "err" /\ ~m.fault /\ "kind" \in DOMAIN e /\ e.kind \notin {"InvalidData", "Other"}
+                         \* an error of a writer call with a transport-level kind comes from the connection, which may
+                         \* only fail when the transport did
+                         \cup (IF e.res = "err" /\ ~m.fault /\ ~m.eintr /\ "kind" \in DOMAIN e /\ e.kind \in TransportKinds
                                THEN {V("C03", l, "writer call " \o o.op \o " failed with a connection-level error (" \o e.kind \o ") although the transport reported none")}
                                     \cup (IF m.enc THEN {V("C18", l, "over TLS a writer call failed with " \o e.kind \o " although the transport reported no error: not served as over plaintext")} ELSE {})
                                     \cup (IF o.op \in {"start", "reply"} THEN {V("C09", l, "the column metadata declared by the shim could not be sent (" \o e.kind \o ") although the transport reported no error")} ELSE {})
